@@ -599,7 +599,11 @@ class Gen:
                     to = self.all_int_struct()
                 p = N_ptr(to)
                 if self.chance(0.25):
-                    p = N_array(p, L_fixed(r.randint(0, 3)))
+                    if allow_dyn and o["dyn"] and not union and self.chance(0.3):
+                        p = N_array(p, L_NULL)      # argv-like: ends at the first null pointer
+                        self.feat("ptr:null-terminated-array")
+                    else:
+                        p = N_array(p, L_fixed(r.randint(0, 3)))
                     self.feat("ptr:array")
                 fields.append(F(fname, p))
                 self.feat("ptr")
